@@ -251,15 +251,21 @@ pub(crate) fn add_int_digits<W, R, T>(
                 // division by 0, or by +-1 which never shrinks n
                 return xerr(ManagedXError::new("base must be at least 2 in magnitude", rt)?);
             }
+            if n.is_negative() && b.is_positive() {
+                // every digit string in a positive base denotes a non-negative number
+                return xerr(ManagedXError::new("a negative number has no digits in a positive base", rt)?);
+            }
             let mut digits = Vec::new();
             let mut total_bits = 0;
             let mut n = n.clone();
+            // digits are in 0..|b|: the remainder by the magnitude of the base, then the exact quotient of what is left
+            let digit_count = b.abs();
             while !n.is_zero() {
-                let next_digit = &n % b.as_ref();
+                let next_digit = &n % &digit_count;
                 total_bits += next_digit.bits();
                 rt.can_allocate_by(|| (total_bits / 8).to_usize())?;
+                n = (n - next_digit.clone()) / b.clone().into_owned();
                 digits.push(next_digit);
-                n = n / b.clone().into_owned();
             }
             Ok(manage_native!(
                 XSequence::array(
